@@ -429,6 +429,41 @@ class Body:
             return ("discr", self._trace_place(rv["place"], depth + 1, seen), rv.get("adt"))
         return ("rv", k)
 
+    def threaded_outcome(self, call_bi):
+        """In a helper-inlined view (rules/inline.py) the switch that follows a call may have been decided on this
+        path (jump threading).  Returns (variant name, target block) for the discriminant switch of the value the
+        call at `call_bi` defines, or None."""
+        t = self.blocks[call_bi]["term"]
+        nxt = t.get("target")
+        hops = 0
+        while nxt is not None and hops < 4:
+            bt = self.blocks[nxt]["term"]
+            if bt.get("threaded") and bt.get("switch"):
+                sw = bt["switch"]
+                # is the decided switch about this call's result?
+                saved = self.blocks[nxt]["term"]
+                self.blocks[nxt]["term"] = sw
+                try:
+                    e = self.trace(sw["discr"])
+                finally:
+                    self.blocks[nxt]["term"] = saved
+                if e[0] == "discr":
+                    x = strip_refs(e[1])
+                    if x[0] == "call" and x[3] == call_bi:
+                        name = self.facts.variant_of_discr(e[2], bt.get("decided")) if e[2] else None
+                        if name is None and "ControlFlow" in (x[1] or {}).get("path", "") + str(e[2]):
+                            name = {"0": "Continue", "1": "Break"}.get(str(bt.get("decided")))
+                        if name is None and (x[1] or {}).get("path", "").endswith("as std::ops::Try>::branch"):
+                            name = {"0": "Continue", "1": "Break"}.get(str(bt.get("decided")))
+                        return (name, bt["target"])
+                return None
+            if bt["k"] == "Goto":
+                nxt = bt["target"]
+                hops += 1
+                continue
+            return None
+        return None
+
     def restricted(self, blocks):
         body = self
 
